@@ -84,6 +84,63 @@ def register(db):
             raises={"ConverterError": True},
             properties=P,
         ))
+    db.add(Contract(f"{DE}.encode", variant="call-view", trusted=True, call_default=True, params={}, returns="u:Any",
+                    raises={"ConverterError": True, "XmlContextError": True},
+                    note="call-site view of the recursive call: some JSON value (the call is recorded on the ghost trace)"))
+    db.add(Contract(f"{DE}.next_value", variant="call-view", trusted=True, call_default=True, params={}, returns="u:Any",
+                    raises={"ConverterError": True, "XmlContextError": True}))
+    ENC, NV = "DictEncoder.encode", "DictEncoder.next_value"
+    NOT_MODEL = "not uf('ClassType.is_model', 'bool', self.context.class_type, value)"
+    db.add(Contract(
+        f"{DE}.encode", variant="wrapped-field",
+        params={"self": encoder, "value": "opaque:Any", "var": "opaque:XmlVar", "wrapped": False},
+        requires=["var.wrapper is not None and len(var.wrapper) > 0"],
+        ensures=[("the-value-is-encoded-once-more-as-the-wrapped-item",
+                  f"called('{ENC}') == 1 and call_arg('{ENC}', 1) is value and call_arg('{ENC}', 2) is var and call_arg('{ENC}', 3) == True"),
+                 ("one-entry-keyed-by-the-item-name", "called('Any.__call__') == 1 and len(call_arg('Any.__call__', 0)) == 1 and "
+                                                      f"call_arg('Any.__call__', 0)[0][0] == var.local_name and call_arg('Any.__call__', 0)[0][1] is call_result('{ENC}')")],
+        raises={"ConverterError": True, "XmlContextError": True}, properties=P,
+    ))
+    db.add(Contract(
+        f"{DE}.encode", variant="model-value",
+        params={"self": encoder, "value": "opaque:Any", "var": "opaque:XmlVar", "wrapped": "bool"},
+        requires=["var.wrapper is None or wrapped", "uf('ClassType.is_model', 'bool', self.context.class_type, value)"],
+        ensures=[("a-model-becomes-the-dictionary-of-its-fields",
+                  f"called('{NV}') == 1 and call_arg('{NV}', 1) is value and called('Any.__call__') == 1 and call_arg('Any.__call__', 0) is call_result('{NV}')")],
+        raises={"ConverterError": True, "XmlContextError": True}, properties=P,
+    ))
+    db.add(Contract(
+        f"{DE}.encode", variant="enum-member",
+        params={"self": encoder, "value": "opaque:EnumValue", "var": "opaque:XmlVar", "wrapped": "bool"},
+        requires=["var.wrapper is None or wrapped", NOT_MODEL],
+        ensures=[("an-enum-member-is-encoded-as-its-value",
+                  f"implies(not isinstance(value, (dict, int, float, str, bool)), called('{ENC}') == 1 and call_arg('{ENC}', 1) == value.value and "
+                  f"call_arg('{ENC}', 2) is var and call_arg('{ENC}', 3) == wrapped and result is call_result('{ENC}'))"),
+                 ("a-member-that-is-a-json-native-value-is-kept", "implies(isinstance(value, (dict, int, float, str, bool)), result is value)")],
+        raises={"ConverterError": True, "XmlContextError": True}, properties=P,
+    ))
+    # the fields of a model: every field is emitted once, under its wrapper name when it has one, else under its local
+    # name, with its own value encoded for that field; an attribute is left out only when the serializer is told to
+    # ignore default attributes and the value is the attribute's default
+    collab.field(db, "SerializerConfig", "ignore_default_attributes", "bool")
+    collab.field(db, "SerializerConfig", "globalns", "u:Any")
+    assume_method(db, "XmlMeta", "get_all_vars", returns="seq[u:XmlVar]", pure=True)
+    assume_method(db, "XmlVar", "is_optional", returns="bool", pure=True)
+    db.total_getattr.add("ModelObj")
+    SHOWN = "(not var.is_attribute or not self.config.ignore_default_attributes or not uf('XmlVar.is_optional', 'bool', var, uf('getattr_ModelObj', 'u:object', obj, var.name)))"
+    db.add(Contract(
+        f"{DE}.next_value", variant="per-field",
+        params={"self": encoder, "obj": "opaque:ModelObj"},
+        ensures=[], raises={"ConverterError": True, "XmlContextError": True},
+        loops=[Loop(invariants=[], header="meta.get_all_vars()",
+                    step=[("a-field-is-left-out-only-as-a-default-valued-attribute", f"len(yielded()) == ite({SHOWN}, 1, 0)"),
+                          ("emitted-under-the-wrapper-name-else-the-local-name",
+                           f"implies({SHOWN}, yielded()[0][0] == ite(var.wrapper is not None and len(var.wrapper) > 0, var.wrapper, var.local_name))"),
+                          ("with-its-own-value-encoded-for-this-field",
+                           f"implies({SHOWN}, called('{ENC}') == 1 and call_arg('{ENC}', 1) == uf('getattr_ModelObj', 'u:object', obj, var.name) and "
+                           f"call_arg('{ENC}', 2) is var and yielded()[0][1] is call_result('{ENC}'))")])],
+        properties=P,
+    ))
     db.add(Contract(
         f"{DE}.encode", variant="none",
         params={"self": encoder, "value": None, "var": "opaque:XmlVar", "wrapped": "bool"},
